@@ -124,11 +124,26 @@ def is_f3(pieces):
     return False
 
 
-def gen_partition(rng, max_cells=3):
-    """-> (whole, pieces, tags)"""
+def _fit_dtype(lm):
+    """values of 8-bit integer fields wrapped into the range of the type (the shared generator hands out values up to
+    a few thousand)"""
+    for f in lm["pf"] + lm["cf"]:
+        m = {"u8": 251, "i8": 127}.get(f["dt"])
+        if m:
+            f["v"] = [int(x) % m for x in f["v"]]
+    return lm
+
+
+def gen_partition(rng, max_cells=3, dtypes=None, scale=None):
+    """-> (whole, pieces, tags); dtypes: numeric types of the fields (default: the shared generator's f64/f32/i32/i64);
+    scale: lattice spacing handed to the shared generator (default: its own random choice 1e-6 .. 1e6)"""
     for _ in range(20):
+        kw = {"dtypes": tuple(dtypes)} if dtypes else {}
+        if scale is not None:
+            kw["scale"] = scale
         lm, tags = meshgen.gen_mesh(rng, max_cells_per_dir=max_cells, allow_duplicates=False,
-                                    allow_orphans=(rng.random() < 0.2))
+                                    allow_orphans=(rng.random() < 0.2), **kw)
+        _fit_dtype(lm)
         ncells = sum(len(rows) for _, rows in lm["cells"])
         # line meshes and one-cell meshes are over-represented by the shared generator: thin them out
         if (tags["topo"] > 1 or rng.random() < 0.25) and (ncells > 1 or rng.random() < 0.1):
@@ -563,7 +578,7 @@ def run_merger(decomp, is_point, piece_arrays):
     return m.merge_point_fields(cb) if is_point else m.merge_cell_fields(cb)
 
 
-def eval_structured_merger(ctx, decomps):
+def eval_structured_merger(ctx, decomps, dts=("i32", "i64", "f64", "f32", "i32"), extra_tags=()):
     rng = ctx.rng
     lines, meta = [], []
     for decomp in decomps:
@@ -582,16 +597,19 @@ def eval_structured_merger(ctx, decomps):
         ids, n = oracle_indices(decomp, is_point)
         case = {"kind": "smerge", "sub": kind, "decomp": decomp, "is_point": is_point}
         tags = ["smerge-" + kind, "sdim%d" % len(decomp), "point" if is_point else "cell",
-                "npieces=%d" % len(ids)]
-        ctx.case(("s", kind, repr(decomp), is_point), nontrivial=len(ids) > 1, tags=tags,
+                "npieces=%d" % len(ids)] + list(extra_tags)
+        ctx.case(("s", kind, repr(decomp), is_point) + tuple(extra_tags), nontrivial=len(ids) > 1, tags=tags,
                  sample={"decomp": decomp, "is_point": is_point, "kind": kind})
         if kind == "idx":
-            dt = rng.choice(["i32", "i64", "f64", "f32", "i32"])
-            tail = rng.choice([[], [], [2], [3, 3]])
+            dt = case.get("dt") or rng.choice(list(dts))
+            tail = case["tail"] if "tail" in case else rng.choice([[], [], [2], [3, 3]])
             rs = meshgen._rowsize(tail)
-            base = rng.randint(1, 50)
-            whole = np.array([base + 3 * g * rs + c for g in range(n) for c in range(rs)],
+            base = case.get("base") or rng.randint(1, 50)
+            wrap = {"u8": 251, "i8": 127}.get(dt, 1 << 15)
+            whole = np.array([(base + 3 * g * rs + c) % wrap for g in range(n) for c in range(rs)],
                              dtype=NP_DT[dt]).reshape([n] + tail)
+            if extra_tags:
+                ctx.dist["p6-smerge-dt-" + dt] += 1
             case.update(dt=dt, tail=tail, base=base)
             try:
                 out = run_merger(decomp, is_point, [whole[np.array(p, dtype=int)] for p in ids])
@@ -739,7 +757,7 @@ def write_structured_case(d, case):
     return ppath, wpath, paths, ext, ids
 
 
-def gen_structured_file_case(rng, fmt, n3, d3):
+def gen_structured_file_case(rng, fmt, n3, d3, dts=("f64", "f32", "i32", "i64", "f64"), ncs=(1, 1, 3)):
     npnt = (n3[0] + 1) * (n3[1] + 1) * (n3[2] + 1)
     ncell = max(n3[0], 1) * max(n3[1], 1) * max(n3[2], 1)
     npieces = len(d3[0]) * len(d3[1]) * len(d3[2])
@@ -764,10 +782,11 @@ def gen_structured_file_case(rng, fmt, n3, d3):
                 coords += [ords[0][ii] + 0.1 * jj, ords[1][jj] + 0.05 * ii, ords[2][kk]]
 
     def field(name, n):
-        dt = rng.choice(["f64", "f32", "i32", "i64", "f64"])
-        nc = rng.choice([1, 1, 3])
+        dt = rng.choice(list(dts))
+        nc = rng.choice(list(ncs))
         base = rng.randint(1, 90)
-        return {"name": name, "dt": dt, "nc": nc, "v": [base + 2 * i for i in range(n * nc)]}
+        wrap = {"u8": 251, "i8": 127}.get(dt, 1 << 15)
+        return {"name": name, "dt": dt, "nc": nc, "v": [(base + 2 * i) % wrap for i in range(n * nc)]}
     pf = [field(f"p{k}", npnt) for k in range(rng.randint(1, 2))]
     cf = [field(f"c{k}", ncell) for k in range(rng.randint(1, 2))]
     case = {"kind": "sfile", "fmt": fmt, "n3": list(n3), "d3": [list(x) for x in d3], "order": order, "shift": shift,
@@ -989,6 +1008,364 @@ def all_structured_decomps(maxn, dims=(1, 2, 3)):
     return out
 
 
+# =================================================================== phase 6 (G1/io): directed batch
+# Dimensions of the quantifier the generators above sampled at one point only:
+#   * numeric types: fields were f64/f32/i32/i64 only -> every narrow / unsigned VTK type (u8 i8 i16 u16 u32 u64) and f32,
+#     through merge(), .pvtu, the structured merger and .pvti/.pvtr/.pvts files (9-component rows included);
+#   * where the pieces live: piece files were always next to the parallel file and the parallel file was always given by
+#     its absolute path -> pieces in sub-directories, parallel file addressed relatively from another working directory;
+#   * repetition: the same piece objects merged twice (operands inspected after the call), the same parallel file read twice;
+#   * size: pieces had at most ~100 points -> pieces of > 1000 points (duplicate-point search over long sorted arrays).
+# Search + correspondence where the existing protocol ops cover the input (c06u, c06s, c06pv, c06rd); the path /
+# repetition / large cases are search only (expectation: content of the whole data set).
+# FCV_P6G_OFF=1 switches the batch off (used to show that a mutant is seen by this batch only).
+P6G_OFF = os.environ.get("FCV_P6G_OFF") == "1"
+P6_DTS = ("u8", "i8", "i16", "u16", "u32", "u64", "f32")
+# Observation C06-CWD (suspected genuine defect, NOT part of the committed run; see notes/PHASE6_G1i.md): a relative `Source` is
+# looked up in the WORKING DIRECTORY first (`_make_piece_reader`: `if not exists(piece) and ... exists(join(dirname, piece))`), so a
+# file of the same name in the working directory shadows the piece that lies next to the parallel file.  FCV_C06_CWD=1 adds the
+# addressing mode "same-named-file-in-cwd" to `eval_paths` (flat layout), whose candidates carry the class `C06-CWD`.
+CWD_OPT_IN = os.environ.get("FCV_C06_CWD") == "1"
+
+
+class _SearchOnly:
+    """the context without the driver (for inputs too large for the model's quadratic sort)"""
+
+    def __init__(self, ctx):
+        self.__dict__["_ctx"] = ctx
+
+    def __getattr__(self, k):
+        return False if k == "driver_ok" else getattr(self._ctx, k)
+
+    def __setattr__(self, k, v):
+        setattr(self._ctx, k, v)
+
+
+def lattice_lm(nx, ny, style, rng):
+    """nx x ny cells in the x-y plane of 3-space as quads / triangle pairs / both, one f64 point field, one i32 cell field"""
+    idx = lambda i, j: i + (nx + 1) * j  # noqa: E731
+    pts = [[0.5 * i, 0.25 * j + 0.01 * i, 1.0] for j in range(ny + 1) for i in range(nx + 1)]
+    blocks = {}
+    for j in range(ny):
+        for i in range(nx):
+            q = [idx(i, j), idx(i + 1, j), idx(i + 1, j + 1), idx(i, j + 1)]
+            if style == "quad" or (style == "mixed" and (i + j) % 3):
+                blocks.setdefault("QUAD", []).append(q)
+            else:
+                blocks.setdefault("TRIANGLE", []).append([q[0], q[1], q[2]])
+                blocks.setdefault("TRIANGLE", []).append([q[0], q[2], q[3]])
+    lm = {"dim": 3, "points": pts, "cells": [[t, rows] for t, rows in blocks.items()],
+          "pf": [{"name": "p", "dt": "f64", "tail": [], "v": [1.5 + 0.25 * k for k in range(len(pts))]}], "cf": []}
+    for t, rows in lm["cells"]:
+        lm["cf"].append({"name": "c", "ctype": t, "dt": "i32", "tail": [], "v": [7 + 3 * k for k in range(len(rows))]})
+    return lm
+
+
+def split_lm(lm, k, how, rng):
+    cells = all_cells(lm)
+    if how == "contiguous":
+        # by position of the first corner: bands of the lattice, so that pieces share whole rows of points
+        cells = sorted(cells, key=lambda bc: lm["points"][lm["cells"][bc[0]][1][bc[1]][0]][1])
+        cut = [len(cells) * i // k for i in range(k + 1)]
+        groups = [cells[a:b] for a, b in zip(cut, cut[1:])]
+    else:
+        groups = [[] for _ in range(k)]
+        for n, c in enumerate(cells):
+            groups[(n * 7 + n // 5) % k].append(c)
+    pieces = []
+    for g in groups:
+        order = list(range(len(lm["points"])))
+        rng.shuffle(order)
+        pieces.append(restrict(lm, sel_from(lm, g), point_order=order))
+    return pieces
+
+
+def eval_paths(ctx, whole, pieces, tmpdir, layout, cwd_shadow=False):
+    """a .pvtu whose pieces live in sub-directories, addressed in several ways (search only)"""
+    from fieldcompare.io import write, read_field_data
+    case = {"kind": "pvtu-paths", "layout": layout, "whole": whole, "pieces": pieces}
+    root = tempfile.mkdtemp(prefix="p6_", dir=tmpdir)
+    cwd = os.getcwd()
+    results = {}
+    try:
+        with warnings.catch_warnings():
+            warnings.simplefilter("ignore")
+            sub = {"flat": "", "subdir": "pieces", "nested": os.path.join("out", "rank_data"), "per-piece": None}[layout]
+            os.makedirs(os.path.join(root, "run"), exist_ok=True)
+            files, sources = [], []
+            for i, p in enumerate(pieces):
+                rel = sub if sub is not None else f"proc{i}"
+                os.makedirs(os.path.join(root, "run", rel), exist_ok=True)
+                f = write(meshgen.to_fc(p), os.path.join(root, "run", rel, f"u-{i}"))
+                files.append(f)
+                sources.append((rel + "/" if rel else "") + os.path.basename(f))
+            wfile = write(meshgen.to_fc(whole), os.path.join(root, "run", "u-whole"))
+            pfile = write_pvtu(os.path.join(root, "run"), "u", files, whole)
+            txt = open(pfile).read()
+            for f, src in zip(files, sources):
+                txt = txt.replace(f'Source="{os.path.basename(f)}"', f'Source="{src}"')
+            with open(pfile, "w") as fh:
+                fh.write(txt)
+            ref = canon(meshgen.from_fc(read_field_data(wfile)))
+            for how, wd, arg in (("absolute", cwd, pfile), ("relative-from-parent", root, os.path.join("run", "u.pvtu")),
+                                 ("bare-name-in-cwd", os.path.join(root, "run"), "u.pvtu"),
+                                 ("dotted", root, os.path.join(".", "run", "..", "run", "u.pvtu")),
+                                 ("absolute-again", cwd, pfile)) + \
+                    ((("same-named-file-in-cwd", os.path.join(root, "elsewhere"), pfile),)
+                     if (CWD_OPT_IN or cwd_shadow) and layout == "flat" else ()):
+                if how == "same-named-file-in-cwd":
+                    # another data set's piece (here: the LAST piece) under the name of the first piece
+                    os.makedirs(wd, exist_ok=True)
+                    shutil.copy(write(meshgen.to_fc(pieces[-1]), os.path.join(wd, "tmp-shadow")), os.path.join(wd, os.path.basename(files[0])))
+                    case["cwd_shadow"] = True
+                os.chdir(wd)
+                try:
+                    got = canon(meshgen.from_fc(read_field_data(arg)))
+                    results[how] = None if got == ref else diff_summary(got, ref)
+                except Exception as e:  # noqa: BLE001
+                    results[how] = f"{type(e).__name__}: {e}"
+                finally:
+                    os.chdir(cwd)
+    finally:
+        os.chdir(cwd)
+        shutil.rmtree(root, ignore_errors=True)
+    f3 = is_f3(pieces)
+    ctx.case(("p6paths", layout, repr(whole["points"]), repr([p["cells"] for p in pieces])), nontrivial=len(pieces) > 1,
+             tags=["p6g1i", "p6-pvtu-pieces-" + layout, "f3" if f3 else "no-f3"])
+    bad = {k: v for k, v in results.items() if v is not None}
+    if bad:
+        ctx.violation(case, bad, "content of the whole data set for every way of addressing the .pvtu",
+                      cls=("F3" if f3 else "C06-CWD" if sorted(bad) == ["same-named-file-in-cwd"] else None),
+                      what=f".pvtu with pieces in layout '{layout}' differs from the whole data set when addressed as {sorted(bad)}")
+
+
+def eval_repeat(ctx, whole, pieces, tmpdir):
+    """the same piece objects merged twice, operands inspected after the calls; the same .pvtu read twice"""
+    from fieldcompare.io import write, read_field_data
+    from fieldcompare.mesh import merge
+    case = {"kind": "merge-repeat", "whole": whole, "pieces": pieces}
+    f3 = is_f3(pieces)
+    out = {}
+    try:
+        with warnings.catch_warnings():
+            warnings.simplefilter("ignore")
+            objs = [meshgen.to_fc(p) for p in pieces]
+            before = [canon(meshgen.from_fc(o)) for o in objs]
+            ref = canon(whole)
+            r1 = canon(meshgen.from_fc(merge(*objs)))
+            mid = [canon(meshgen.from_fc(o)) for o in objs]
+            r2 = canon(meshgen.from_fc(merge(*objs)))
+            r3 = canon(meshgen.from_fc(merge(*[meshgen.to_fc(p) for p in pieces])))
+            if mid != before:
+                out["operands-changed-by-merge"] = [i for i, (a, b) in enumerate(zip(before, mid)) if a != b]
+            if r2 != r1 or r3 != r1:
+                out["second-merge-differs"] = diff_summary(r2 if r2 != r1 else r3, r1)
+            if r1 != ref and not f3:
+                out["first-merge"] = diff_summary(r1, ref)
+            files = [write(meshgen.to_fc(p), os.path.join(tmpdir, f"r-{i}")) for i, p in enumerate(pieces)]
+            pfile = write_pvtu(tmpdir, "r", files, whole)
+            a = canon(meshgen.from_fc(read_field_data(pfile)))
+            b = canon(meshgen.from_fc(read_field_data(pfile)))
+            for f in files + [pfile]:
+                os.remove(f)
+            if a != b:
+                out["second-read-differs"] = diff_summary(b, a)
+    except Exception as e:  # noqa: BLE001
+        out["exception"] = f"{type(e).__name__}: {e}"
+    ctx.case(("p6repeat", repr(whole["points"]), repr([p["cells"] for p in pieces])), nontrivial=len(pieces) > 1,
+             tags=["p6g1i", "p6-repeat", "f3" if f3 else "no-f3"])
+    if out:
+        ctx.violation(case, out, "merging / reading twice gives the same data set and leaves the pieces unchanged", cls=None,
+                      what=f"repetition: {sorted(out)}")
+
+
+# ------------------------------------------------------------------- shared points that are EQUAL but not bit-identical
+# The pieces of a parallel data set are written by different processes: a coordinate on the interface can be +0.0 in one piece
+# and -0.0 in the other, and one piece can store its points as Float32 where another uses Float64 (exactly representable
+# coordinates).  Numerically equal points are the same point ("points shared between pieces are present once"); the
+# generators above only ever produced bit-identical float64 copies.  Content vs the whole data set (search) and vs the Lean
+# model on the same numbers (the protocol transports coordinates as unit counts: +0 = -0, no float width), both piece orders,
+# merge() on MeshFields objects and .pvtu files whose pieces carry the different zeros / point types.
+
+def _to_fc_pts(lm, pdt):
+    """meshgen.to_fc with the points stored as `pdt` ("f64" | "f32"); signed zeros of the logical mesh are kept"""
+    from fieldcompare.mesh import Mesh, MeshFields
+    pts = np.array(lm["points"], dtype=NP_DT[pdt]).reshape(len(lm["points"]), lm["dim"])
+    conn = [(meshgen.celltype(t), np.array(rows, dtype=np.int64).reshape(len(rows), -1)) for t, rows in lm["cells"]]
+    pd = {f["name"]: meshgen._values_array(f, len(lm["points"])) for f in lm["pf"]}
+    names = []
+    for f in lm["cf"]:
+        if f["name"] not in names:
+            names.append(f["name"])
+    cd = {n: [meshgen._values_array([f for f in lm["cf"] if f["name"] == n and f["ctype"] == t][0], len(rows))
+              for t, rows in lm["cells"]] for n in names}
+    return MeshFields(Mesh(pts, conn), pd, cd)
+
+
+def eqpts_variant(rng, whole, pieces, variant):
+    """-> (whole', pieces', point dtypes per piece) or None if the partition has no point shared between two pieces"""
+    whole, pieces = copy.deepcopy(whole), copy.deepcopy(pieces)
+    count = {}
+    for p in pieces:
+        for k in {point_key(x) for x in p["points"]}:
+            count[k] = count.get(k, 0) + 1
+    shared = [x for p in pieces for x in p["points"] if count[point_key(x)] > 1]
+    if not shared:
+        return None
+    if variant == "signed-zero":
+        s = list(rng.choice(shared))
+        for lm in [whole] + pieces:
+            lm["points"] = [[c - sc for c, sc in zip(x, s)] for x in lm["points"]]      # the chosen shared point becomes the origin
+        flip = rng.randrange(2)
+        for i, p in enumerate(pieces):
+            if i % 2 == flip:
+                p["points"] = [[-0.0 if c == 0.0 else c for c in x] for x in p["points"]]
+            else:
+                p["points"] = [[0.0 if c == 0.0 else c for c in x] for x in p["points"]]
+        whole["points"] = [[0.0 if c == 0.0 else c for c in x] for x in whole["points"]]
+        pdts = ["f64"] * len(pieces)
+    else:
+        n_before = len({point_key(x) for x in whole["points"]})
+        for lm in [whole] + pieces:
+            lm["points"] = [[float(np.float32(c)) for c in x] for x in lm["points"]]
+        if len({point_key(x) for x in whole["points"]}) != n_before:
+            return None                                    # rounding to float32 made two points coincide
+        flip = rng.randrange(2)
+        pdts = ["f32" if i % 2 == flip else "f64" for i in range(len(pieces))]
+    return whole, pieces, pdts
+
+
+def eval_eqpts(ctx, items, tmpdir):
+    """items: (whole, pieces, point dtypes, tags, via)"""
+    from fieldcompare.io import write, read_field_data
+    from fieldcompare.mesh import merge
+    prepared = []
+    for whole, pieces, pdts, tags, via in items:
+        case = {"kind": "merge-eqpts", "via": via, "whole": whole, "pieces": pieces, "pdts": pdts}
+        try:
+            with warnings.catch_warnings():
+                warnings.simplefilter("ignore")
+                objs = [_to_fc_pts(p, d) for p, d in zip(pieces, pdts)]
+                if via == "mem":
+                    res = merge(*objs)
+                    ref_c = canon(whole)
+                else:
+                    files = [write(o, os.path.join(tmpdir, f"e-{i}")) for i, o in enumerate(objs)]
+                    wfile = write(meshgen.to_fc(whole), os.path.join(tmpdir, "e-whole"))
+                    pfile = write_pvtu(tmpdir, "e", files, whole)
+                    res = read_field_data(pfile)
+                    ref_c = canon(meshgen.from_fc(read_field_data(wfile)))
+                    for f in files + [wfile, pfile]:
+                        os.remove(f)
+                impl_c = canon(meshgen.from_fc(res))
+                npts = len(np.asarray(res.domain.points))
+            err = None
+        except Exception as e:  # noqa: BLE001
+            impl_c = ref_c = npts = None
+            err = f"{type(e).__name__}: {e}"
+        prepared.append((case, tags, impl_c, ref_c, npts, err))
+    replies = ctx.lean([enc_c06u(c["whole"], c["pieces"]) for c, *_ in prepared]) if ctx.driver_ok else [None] * len(prepared)
+    for (case, tags, impl_c, ref_c, npts, err), rep in zip(prepared, replies):
+        f3 = is_f3(case["pieces"])
+        ctx.case(("eqpts", case["via"], repr(case["pdts"]), repr(case["whole"]["points"]), repr([p["points"] for p in case["pieces"]]),
+                  repr([p["cells"] for p in case["pieces"]])), nontrivial=len(case["pieces"]) > 1,
+                 tags=list(tags) + ["p6g1i", "p6-equal-not-identical-points", "via-" + case["via"], "f3" if f3 else "no-f3"])
+        cls = "F3" if f3 else None
+        if err is not None:
+            ctx.violation(case, "exception " + err, "content of the whole data set", cls=cls,
+                          what="merging pieces whose shared points are equal but not bit-identical raised")
+            continue
+        if impl_c != ref_c:
+            d = diff_summary(impl_c, ref_c)
+            d["merged_point_count"], d["whole_point_count"] = npts, len(case["whole"]["points"])
+            ctx.violation(case, d, "content of the whole data set (shared points present once)", cls=cls,
+                          what=f"pieces whose shared points are equal but not bit-identical ({'/'.join(tags[-2:])}, {case['via']}) "
+                               "do not merge to the whole data set")
+        elif not f3 and npts != len(case["whole"]["points"]):
+            ctx.violation(case, {"merged_point_count": npts}, {"whole_point_count": len(case["whole"]["points"])}, cls=None,
+                          what="merged data set has the content of the whole but a different number of points")
+        if rep is not None and case["via"] == "mem" and rep.get("hyp") == "1":
+            model_c = canon_units(dec_fields(rep["model"]))
+            if model_c != impl_c:
+                ctx.mismatch(case, diff_summary(impl_c, model_c), "Fc.mergeAll", what="merge (equal, not identical points): impl vs model content")
+
+
+def check_eqpts(ctx, tmpdir):
+    rng = ctx.rng
+    items = []
+    n = 0
+    tries = 0
+    while n < ctx.scale(40, 1500) and tries < 20000:
+        tries += 1
+        whole, pieces, tags = gen_partition(rng, max_cells=rng.choice([2, 3, 3]), scale=rng.choice([1.0, 0.5, 2.5]))
+        if len(pieces) < 2:
+            continue
+        variant = ("signed-zero", "f32-f64")[n % 2]
+        v = eqpts_variant(rng, whole, pieces, variant)
+        if v is None:
+            continue
+        w2, p2, pdts = v
+        via = "pvtu" if n % 4 >= 2 else "mem"
+        items.append((w2, p2, pdts, tags + ["p6-eqpts-" + variant, "order-listed"], via))
+        items.append((w2, list(reversed(p2)), list(reversed(pdts)), tags + ["p6-eqpts-" + variant, "order-reversed"], via))
+        n += 1
+    for i in range(0, len(items), 200):
+        eval_eqpts(ctx, items[i:i + 200], tmpdir)
+
+
+def check_p6g1i(ctx, tmpdir):
+    rng = ctx.rng
+    check_eqpts(ctx, tmpdir)
+    # ---- numeric types, unstructured (model consulted: the protocol carries every dtype)
+    batch = []
+    for i in range(ctx.scale(70, 1500)):
+        dts = [P6_DTS[i % len(P6_DTS)], P6_DTS[(i // 2 + 3) % len(P6_DTS)]]
+        whole, pieces, tags = gen_partition(rng, max_cells=rng.choice([2, 3, 3]), dtypes=dts)
+        used = sorted({f["dt"] for f in whole["pf"] + whole["cf"]})
+        batch.append((whole, pieces, tags + ["p6g1i", "p6-dtypes"] + ["p6-dt-" + d for d in used], "mem" if i % 5 else "pvtu"))
+    eval_unstructured(ctx, batch, tmpdir)
+    # ---- numeric types, structured merger and structured files (incl. 9-component rows)
+    small = all_structured_decomps(2)
+    decomps = [small[(7 * i) % len(small)] for i in range(ctx.scale(40, len(small)))] + [[[2, 1, 2]], [[1, 2], [3]], [[1, 1], [2], [1, 1]]]
+    eval_structured_merger(ctx, decomps, dts=P6_DTS, extra_tags=("p6g1i", "p6-smerge-dtypes"))
+    cases = []
+    shapes = [((3,), ([1, 2],)), ((2, 2), ([1, 1], [2])), ((2, 1, 2), ([2], [1], [1, 1])), ((3, 2), ([2, 1], [1, 1])), ((1, 2, 2), ([1], [1, 1], [1, 1]))]
+    for i in range(ctx.scale(30, 600)):
+        shape, decomp = shapes[i % len(shapes)]
+        dirs = sorted(rng.sample(range(3), len(shape)))
+        n3, d3 = [0, 0, 0], [[0], [0], [0]]
+        for k, dd in enumerate(dirs):
+            n3[dd], d3[dd] = shape[k], list(decomp[k])
+        c = gen_structured_file_case(rng, ["vti", "vtr", "vts"][i % 3], n3, d3, dts=P6_DTS, ncs=(1, 3, 9))
+        c["p6"] = True
+        for f in c["pf"] + c["cf"]:
+            ctx.dist["p6-sfile-dt-" + f["dt"]] += 1
+            ctx.dist["p6-sfile-ncomp-%d" % f["nc"]] += 1
+        cases.append(c)
+    eval_structured_file(ctx, cases, tmpdir)
+    # ---- where the pieces live / how the parallel file is addressed; repetition
+    layouts = ["subdir", "nested", "per-piece", "flat"]
+    n = 0
+    while n < ctx.scale(8, 120):
+        whole, pieces, tags = gen_partition(rng, max_cells=3)
+        if len(pieces) < 2:
+            continue
+        eval_paths(ctx, whole, pieces, tmpdir, layouts[n % len(layouts)])
+        if n % 2 == 0:
+            eval_repeat(ctx, whole, pieces, tmpdir)
+        n += 1
+    # ---- pieces of > 1000 points (search only)
+    big = []
+    for j, (nx, ny, style, k, how) in enumerate([(60, 50, "quad", 3, "contiguous"), (45, 40, "mixed", 4, "scattered")] +
+                                                ([(70, 60, "tri", 5, "contiguous"), (64, 64, "mixed", 2, "contiguous")] if ctx.tier == "thorough" else [])):
+        whole = lattice_lm(nx, ny, style, rng)
+        pieces = split_lm(whole, k, how, rng)
+        if j % 2:
+            pieces.reverse()
+        big.append((whole, pieces, ["p6g1i", "p6-points>1000", "strategy-" + how, "k=%d" % k], "mem" if j % 2 == 0 else "pvtu"))
+    eval_unstructured(_SearchOnly(ctx), big, tmpdir)
+
+
 # =================================================================== entry points
 
 def run(ctx):
@@ -1044,6 +1421,9 @@ def run(ctx):
         CH = 100
         for i in range(0, len(cases), CH):
             eval_structured_file(ctx, cases[i:i + CH], tmpdir)
+        # ---- phase 6 (G1/io): directed batch
+        if not P6G_OFF:
+            check_p6g1i(ctx, tmpdir)
     finally:
         shutil.rmtree(tmpdir, ignore_errors=True)
     ctx.exhaustive = False
@@ -1060,7 +1440,13 @@ def _rerun_case(ctx, case):
         elif case["kind"] == "sfile":
             eval_structured_file(sub, [case], tmpdir)
         elif case["kind"] == "smerge":
-            eval_structured_merger(sub, [case["decomp"]])
+            eval_structured_merger(sub, [case["decomp"]], dts=(case["dt"],) if case.get("dt") else ("i32", "i64", "f64", "f32", "i32"))
+        elif case["kind"] == "pvtu-paths":
+            eval_paths(sub, case["whole"], case["pieces"], tmpdir, case["layout"], cwd_shadow=bool(case.get("cwd_shadow")))
+        elif case["kind"] == "merge-eqpts":
+            eval_eqpts(sub, [(case["whole"], case["pieces"], case["pdts"], ["replay", "replay"], case["via"])], tmpdir)
+        elif case["kind"] == "merge-repeat":
+            eval_repeat(sub, case["whole"], case["pieces"], tmpdir)
     finally:
         shutil.rmtree(tmpdir, ignore_errors=True)
     fails = bool(sub.spec_viol or sub.corr_mismatch)
@@ -1075,6 +1461,8 @@ class Ctx2:
         self.rng, self.driver_ok, self.tier = ctx.rng, ctx.driver_ok, ctx.tier
         self.lean = ctx.lean
         self.spec_viol, self.corr_mismatch, self.internal = [], [], []
+        import collections
+        self.dist = collections.Counter()
 
     def case(self, *a, **k):
         pass
